@@ -161,14 +161,15 @@ Definition prop_e2e (input impl : val) : option Z :=
 Definition chk_fwd_e2e : val -> val := mk_chk run_e2e prop_e2e.
 
 (* ---------- C01, byte identity through the real ServiceRouter and GRPCProxy (messages are opaque in the forwarder model: the
-   model of this part is the identity on both message sequences) ----------
-   input ( method requests responses ) ; impl ( received-by-target received-by-client final-code )
+   model of this part is the identity on both message sequences and on the final status) ----------
+   input ( method requests responses final-status ) ; impl ( received-by-target received-by-client final-status )
+   the final status is the marshalled status proto (code, message, details); empty for OK
      8: the target did not receive exactly the bytes the client sent, in order
      9: the client did not receive exactly the bytes the target sent, in order
-     10: the call did not end with the target's OK status *)
-Definition run_c01_bytes (v : val) : val := VL [nthv 1 v; nthv 2 v; VN 0].
+     10: the client did not receive the target's final status - code, message and details *)
+Definition run_c01_bytes (v : val) : val := VL [nthv 1 v; nthv 2 v; nthv 3 v].
 Definition prop_c01_bytes (input impl : val) : option Z :=
   if negb (val_eqb (nthv 0 impl) (nthv 1 input)) then Some 8
   else if negb (val_eqb (nthv 1 impl) (nthv 2 input)) then Some 9
-  else if negb (Z.eqb (as_Z (nthv 2 impl)) 0) then Some 10 else None.
+  else if negb (val_eqb (nthv 2 impl) (nthv 3 input)) then Some 10 else None.
 Definition chk_c01_bytes : val -> val := mk_chk run_c01_bytes prop_c01_bytes.
